@@ -122,6 +122,7 @@ type shared struct {
 	hj *gorm.DB // three joins (a slice with spare capacity behind it)
 	hw *gorm.DB // three conditions
 	ho *gorm.DB // three order columns
+	ro bool     // read-only run: totals over all goroutines' rows are stable
 }
 
 var sharedOf sync.Map // root *gorm.DB -> *shared
@@ -149,9 +150,9 @@ type Config struct {
 }
 
 var roKinds = []string{"find_users", "first_user", "preload", "preload_all", "joins", "order_preload_user", "count", "company_users", "notes", "assoc_count",
-	"solo_find", "bad_column", "scan_rows", "pluck", "find_map", "h_joins", "h_where", "h_order", "solo_find"}
+	"solo_find", "bad_column", "scan_rows", "pluck", "find_map", "h_joins", "h_where", "h_order", "h_order", "h_count", "solo_find"}
 
-var opKinds = []string{"bad_column", "scan_rows", "pluck", "find_map", "h_joins", "h_where", "h_order", "create_user", "find_users", "preload", "preload_all", "joins", "update", "delete_order", "tx", "assoc_append", "assoc_count",
+var opKinds = []string{"bad_column", "scan_rows", "pluck", "find_map", "h_joins", "h_where", "h_order", "h_count", "create_user", "find_users", "preload", "preload_all", "joins", "update", "delete_order", "tx", "assoc_append", "assoc_count",
 	"solo_create", "solo_find", "order_preload_user", "count", "company_users", "notes", "first_user", "save_user", "item_create"}
 
 func id(g, n int) int64 { return int64(g*100000 + n) }
@@ -182,6 +183,18 @@ func run(db *gorm.DB, g int, o Op, st *gstate) string {
 		var us []CUser
 		r := db.Where("g = ?", g).Order("id").Find(&us)
 		return fmt.Sprintf("find_users %s %s", errTok(r.Error), userToks(us))
+	case "h_count":
+		// Count through the shared ordered handle (it drops and restores ORDER BY on its own statement)
+		sh := sharedHandles(db)
+		if sh == nil {
+			return o.K + " no-handle"
+		}
+		var n int64
+		r := sh.ho.Count(&n) // directly on the handle
+		if !sh.ro {
+			n = -1 // other goroutines are creating users: the total is not comparable
+		}
+		return fmt.Sprintf("h_count %s %d", errTok(r.Error), n)
 	case "h_joins", "h_where", "h_order":
 		// a chain derived from a shared handle that already carries three joins / conditions / orderings
 		sh := sharedHandles(db)
@@ -196,7 +209,7 @@ func run(db *gorm.DB, g int, o Op, st *gstate) string {
 		case "h_where":
 			r = sh.hw.Where("c_users.g = ?", g).Order("c_users.id").Find(&us)
 		default:
-			r = sh.ho.Where("c_users.g = ?", g).Order(clause.OrderByColumn{Column: clause.Column{Name: "id"}, Desc: g%2 == 0}).Find(&us)
+			r = sh.ho.Where("c_users.g = ?", g).Find(&us) // ordered by the handle: id descending
 		}
 		return fmt.Sprintf("%s %s %s", o.K, errTok(r.Error), userToks(us))
 	case "bad_column":
@@ -415,10 +428,11 @@ func newWorld(cfg Config) (*world, error) {
 	}
 	one := clause.Expr{SQL: "1 = 1"}
 	sharedOf.Store(db, &shared{
+		ro: cfg.RO,
 		hj: db.Model(&CUser{}).Joins("LEFT JOIN c_profiles p1 ON p1.user_id = c_users.id").Joins("LEFT JOIN c_profiles p2 ON p2.id = p1.id").
 			Joins("LEFT JOIN c_profiles p3 ON p3.id = p1.id").Session(&gorm.Session{}),
 		hw: db.Model(&CUser{}).Where(one).Where(one).Where(one).Session(&gorm.Session{}),
-		ho: db.Model(&CUser{}).Order("c_users.g").Order("c_users.company_id").Order("c_users.name").Session(&gorm.Session{}),
+		ho: db.Model(&CUser{}).Order("c_users.g").Order("c_users.id DESC").Order("c_users.name").Session(&gorm.Session{}),
 	})
 	return &world{sqldb, db}, nil
 }
